@@ -146,25 +146,32 @@ def _avoid(s, forbid):
 
 
 def overhang_words(ov, count, scheme=0):
-    """`count` distinct overhang words of length ov such that no word is the reverse complement
-    of another (or equal to it) and none is palindromic -- a legal chain of junctions.
-    Deterministic, lexicographic with a scheme-dependent rotation."""
+    """Junction overhangs o_0 .. o_{count-1} of a legal chain: o_0..o_{count-2} are the module start
+    overhangs (pairwise different, no two reverse-complementary, none palindromic); the last word is
+    the vector's upstream overhang: different from every start (it may be the reverse complement of
+    one).  Deterministic: lexicographic with a scheme-dependent rotation.  Returns fewer words when
+    the alphabet cannot provide them."""
     import itertools
     letters = "ACGT"
     allw = ["".join(p) for p in itertools.product(letters, repeat=ov)]
     k = (scheme * 7) % len(allw)
     allw = allw[k:] + allw[:k]
-    out = []
+    starts = []
     for w in allw:
+        if len(starts) == count - 1:
+            break
         r = rm.revcomp(w)
-        if w == r or w in out or r in out:
+        if w == r or w in starts or r in starts:
             continue
         if ov > 1 and len(set(w)) == 1:
             continue
-        out.append(w)
-        if len(out) == count:
-            return out
-    return out
+        starts.append(w)
+    if len(starts) < count - 1:
+        return starts
+    for w in reversed(allw):
+        if w not in starts and w != rm.revcomp(w) and not (ov > 1 and len(set(w)) == 1):
+            return starts + [w]
+    return starts
 
 
 # ----------------------------------------------------------------------------------------
